@@ -29,7 +29,7 @@ theorem clickCount_eq_risingEdges (b : Button) (sig : List Bool) :
     rw [h2]
     by_cases h : (s && !b.prev) = true
     · simp only [h, if_true, List.length_cons, ih']; omega
-    · simp only [h, ih']; simp
+    · simp only [h]; simpa using ih'
 
 theorem hostClicks_eq_risingEdges (hb : Host.Button) (sig : List Bool) :
     Host.Button.clicks hb sig = Host.risingEdges hb.wasPressed sig := by
@@ -52,8 +52,7 @@ def Spaced' : Nat → List UEv → Prop
   | last, _ :: rest => Spaced' last rest
 
 section
-variable {α : Type} [Num α] [LT α] [LE α] [DecidableLT α] [DecidableLE α]
-variable [Add α] [Sub α] [Mul α] [Div α] [Neg α]
+variable {α : Type} [Num α] [Mul α] [Div α]
 
 theorem millis_ge (now : Nat) (ds : List Nat) : now ≤ (Ultra.millis now ds).1 := by
   cases ds <;> simp [Ultra.millis]
@@ -95,13 +94,14 @@ def run : Nat → Ultra α → Nat → List Nat → List Nat → UOut α
     let m2 := atPulse u.lastTrigger now ds
     let dur := es.headD 0
     let m3 := Ultra.millis m2.1 m2.2
-    let evs := preEvs u.lastTrigger now ds ++ [.pulse m2.1, .echo dur, .stamp m3.1]
     if 0 < dur then
       { st := { lastTrigger := m3.1, lastDistance := Ultra.distanceOf dur, has := true }, now := m3.1,
-        result := Ultra.distanceOf dur, evs := evs, echoes := es.tail, drifts := m3.2 }
+        result := Ultra.distanceOf dur,
+        evs := preEvs u.lastTrigger now ds ++ [.pulse m2.1, .echo dur, .stamp m3.1],
+        echoes := es.tail, drifts := m3.2 }
     else
       let r := run k { u with lastTrigger := m3.1 } m3.1 es.tail m3.2
-      { r with evs := evs ++ r.evs }
+      { r with evs := preEvs u.lastTrigger now ds ++ (.pulse m2.1 :: .echo dur :: .stamp m3.1 :: r.evs) }
 
 theorem attempts_eq_run (k : Nat) (u : Ultra α) (now : Nat) (es ds : List Nat) (acc : List UEv) :
     Ultra.attempts k u now es ds acc =
@@ -124,14 +124,19 @@ theorem measure_eq_run (u : Ultra α) (now : Nat) (es ds : List Nat) :
   rw [Ultra.measure, Ultra.maxAttempts, attempts_eq_run]
   simp
 
-theorem pulses'_pre (lt now : Nat) (ds : List Nat) (t d s : Nat) (rest : List UEv) :
-    pulses' (preEvs lt now ds ++ [.pulse t, .echo d, .stamp s] ++ rest) = t :: pulses' rest := by
-  simp only [preEvs]
-  split <;> simp [pulses']
+@[simp] theorem pulses'_nil : pulses' [] = [] := rfl
+@[simp] theorem pulses'_pulse (t : Nat) (l : List UEv) : pulses' (.pulse t :: l) = t :: pulses' l := rfl
+@[simp] theorem pulses'_echo (t : Nat) (l : List UEv) : pulses' (.echo t :: l) = pulses' l := rfl
+@[simp] theorem pulses'_stamp (t : Nat) (l : List UEv) : pulses' (.stamp t :: l) = pulses' l := rfl
+@[simp] theorem pulses'_delay (t : Nat) (l : List UEv) : pulses' (.delay t :: l) = pulses' l := rfl
 
-theorem spaced'_pre (lt now : Nat) (ds : List Nat) (t d s : Nat) (rest : List UEv) :
-    Spaced' lt (preEvs lt now ds ++ [.pulse t, .echo d, .stamp s] ++ rest) ↔
-      (lt ≠ 0 → lt + 60 ≤ t) ∧ Spaced' s rest := by
+@[simp] theorem pulses'_pre (lt now : Nat) (ds : List Nat) (l : List UEv) :
+    pulses' (preEvs lt now ds ++ l) = pulses' l := by
+  simp only [preEvs]
+  split <;> simp
+
+@[simp] theorem spaced'_pre (lt now : Nat) (ds : List Nat) (l : List UEv) :
+    Spaced' lt (preEvs lt now ds ++ l) ↔ Spaced' lt l := by
   simp only [preEvs]
   split <;> simp [Spaced']
 
@@ -140,20 +145,16 @@ theorem run_pulses_length (k : Nat) (u : Ultra α) (now : Nat) (es ds : List Nat
     (pulses' (run k u now es ds).evs).length ≤ k ∧
       (1 ≤ k → 1 ≤ (pulses' (run k u now es ds).evs).length) := by
   induction k generalizing u now es ds with
-  | zero => simp [run, pulses']
+  | zero => simp [run]
   | succ k ih =>
     simp only [run]
+    generalize atPulse u.lastTrigger now ds = m2
+    generalize Ultra.millis m2.1 m2.2 = m3
+    generalize es.headD 0 = dur
     split
-    · have := pulses'_pre u.lastTrigger now ds (atPulse u.lastTrigger now ds).1 (es.headD 0)
-        (Ultra.millis (atPulse u.lastTrigger now ds).1 (atPulse u.lastTrigger now ds).2).1 []
-      simp only [List.append_nil] at this
-      simp [this]
-    · simp only []
-      rw [← List.append_assoc, pulses'_pre]
-      have := (ih { u with lastTrigger := (Ultra.millis (atPulse u.lastTrigger now ds).1 (atPulse u.lastTrigger now ds).2).1 }
-        (Ultra.millis (atPulse u.lastTrigger now ds).1 (atPulse u.lastTrigger now ds).2).1 es.tail
-        (Ultra.millis (atPulse u.lastTrigger now ds).1 (atPulse u.lastTrigger now ds).2).2).1
-      simp only [List.length_cons]
+    · simp
+    · have := (ih { u with lastTrigger := m3.1 } m3.1 es.tail m3.2).1
+      simp only [pulses'_pre, pulses'_pulse, pulses'_echo, pulses'_stamp, List.length_cons]
       omega
 
 /-- first positive echo among the first `k` -/
@@ -175,12 +176,13 @@ theorem run_value (k : Nat) (u : Ultra α) (now : Nat) (es ds : List Nat) :
   | zero => simp [run, firstPos]
   | succ k ih =>
     simp only [run, firstPos]
-    by_cases hd : 0 < es.headD 0
+    generalize atPulse u.lastTrigger now ds = m2
+    generalize Ultra.millis m2.1 m2.2 = m3
+    generalize es.headD 0 = dur
+    by_cases hd : 0 < dur
     · simp [hd]
     · simp only [hd, if_false]
-      exact ih { u with lastTrigger := (Ultra.millis (atPulse u.lastTrigger now ds).1 (atPulse u.lastTrigger now ds).2).1 }
-        (Ultra.millis (atPulse u.lastTrigger now ds).1 (atPulse u.lastTrigger now ds).2).1 es.tail
-        (Ultra.millis (atPulse u.lastTrigger now ds).1 (atPulse u.lastTrigger now ds).2).2
+      exact ih { u with lastTrigger := m3.1 } m3.1 es.tail m3.2
 
 /-- spacing invariant -/
 theorem run_spacing (k : Nat) (u : Ultra α) (now : Nat) (es ds : List Nat) (hpast : u.lastTrigger ≤ now) :
@@ -191,22 +193,18 @@ theorem run_spacing (k : Nat) (u : Ultra α) (now : Nat) (es ds : List Nat) (hpa
   | zero => simp [run, Spaced', hpast]
   | succ k ih =>
     have h2 := atPulse_ge u.lastTrigger now ds
-    have h3 := millis_ge (atPulse u.lastTrigger now ds).1 (atPulse u.lastTrigger now ds).2
-    have hs : u.lastTrigger ≠ 0 → u.lastTrigger + 60 ≤ (atPulse u.lastTrigger now ds).1 :=
-      fun h0 => atPulse_spaced u.lastTrigger now ds hpast h0
+    have hs := atPulse_spaced u.lastTrigger now ds hpast
     simp only [run]
+    generalize atPulse u.lastTrigger now ds = m2 at *
+    have h3 := millis_ge m2.1 m2.2
+    generalize Ultra.millis m2.1 m2.2 = m3 at *
+    generalize es.headD 0 = dur
     split
-    · have := spaced'_pre u.lastTrigger now ds (atPulse u.lastTrigger now ds).1 (es.headD 0)
-        (Ultra.millis (atPulse u.lastTrigger now ds).1 (atPulse u.lastTrigger now ds).2).1 []
-      simp only [List.append_nil] at this
-      simp only [this]
-      refine ⟨⟨hs, by simp [Spaced']⟩, Nat.le_refl _, by omega⟩
-    · simp only []
-      rw [← List.append_assoc, spaced'_pre]
-      have := ih { u with lastTrigger := (Ultra.millis (atPulse u.lastTrigger now ds).1 (atPulse u.lastTrigger now ds).2).1 }
-        (Ultra.millis (atPulse u.lastTrigger now ds).1 (atPulse u.lastTrigger now ds).2).1 es.tail
-        (Ultra.millis (atPulse u.lastTrigger now ds).1 (atPulse u.lastTrigger now ds).2).2 (Nat.le_refl _)
-      refine ⟨⟨hs, this.1⟩, this.2.1, by omega⟩
+    · simp only [spaced'_pre, Spaced']
+      exact ⟨⟨hs, trivial⟩, Nat.le_refl _, by omega⟩
+    · have := ih { u with lastTrigger := m3.1 } m3.1 es.tail m3.2 (Nat.le_refl _)
+      simp only [spaced'_pre, Spaced']
+      exact ⟨⟨hs, this.1⟩, this.2.1, by omega⟩
 
 /-- pulse times: all at or after `now`, ≥ 60 after a running stamp, and pairwise ≥ 60 apart -/
 theorem run_pulse_gap (k : Nat) (u : Ultra α) (now : Nat) (es ds : List Nat) (hpast : u.lastTrigger ≤ now)
@@ -214,27 +212,23 @@ theorem run_pulse_gap (k : Nat) (u : Ultra α) (now : Nat) (es ds : List Nat) (h
     (∀ p ∈ pulses' (run k u now es ds).evs, now ≤ p ∧ (u.lastTrigger ≠ 0 → u.lastTrigger + 60 ≤ p)) ∧
       List.Pairwise (fun a b => a + 60 ≤ b) (pulses' (run k u now es ds).evs) := by
   induction k generalizing u now es ds with
-  | zero => simp [run, pulses']
+  | zero => simp [run]
   | succ k ih =>
     have h2 := atPulse_ge u.lastTrigger now ds
-    have h3 := millis_ge (atPulse u.lastTrigger now ds).1 (atPulse u.lastTrigger now ds).2
-    have hs : u.lastTrigger ≠ 0 → u.lastTrigger + 60 ≤ (atPulse u.lastTrigger now ds).1 :=
-      fun h0 => atPulse_spaced u.lastTrigger now ds hpast h0
+    have hs := atPulse_spaced u.lastTrigger now ds hpast
     simp only [run]
+    generalize atPulse u.lastTrigger now ds = m2 at *
+    have h3 := millis_ge m2.1 m2.2
+    generalize Ultra.millis m2.1 m2.2 = m3 at *
+    generalize es.headD 0 = dur
     split
-    · have := pulses'_pre u.lastTrigger now ds (atPulse u.lastTrigger now ds).1 (es.headD 0)
-        (Ultra.millis (atPulse u.lastTrigger now ds).1 (atPulse u.lastTrigger now ds).2).1 []
-      simp only [List.append_nil] at this
-      simp only [this]
-      simp [pulses']
+    · simp only [pulses'_pre, pulses'_pulse, pulses'_echo, pulses'_stamp, pulses'_nil]
+      simp only [List.mem_singleton, forall_eq, List.pairwise_cons, List.not_mem_nil, false_imp_iff,
+        implies_true, List.Pairwise.nil, and_true]
       exact ⟨h2, hs⟩
-    · simp only []
-      rw [← List.append_assoc, pulses'_pre]
-      have := ih { u with lastTrigger := (Ultra.millis (atPulse u.lastTrigger now ds).1 (atPulse u.lastTrigger now ds).2).1 }
-        (Ultra.millis (atPulse u.lastTrigger now ds).1 (atPulse u.lastTrigger now ds).2).1 es.tail
-        (Ultra.millis (atPulse u.lastTrigger now ds).1 (atPulse u.lastTrigger now ds).2).2 (Nat.le_refl _) (by omega)
-      obtain ⟨ha, hp⟩ := this
+    · obtain ⟨ha, hp⟩ := ih { u with lastTrigger := m3.1 } m3.1 es.tail m3.2 (Nat.le_refl _) (by omega)
       simp only [] at ha
+      simp only [pulses'_pre, pulses'_pulse, pulses'_echo, pulses'_stamp]
       refine ⟨?_, ?_⟩
       · intro p hp'
         rcases List.mem_cons.1 hp' with rfl | hm
